@@ -93,11 +93,8 @@ struct Script {
     // ---------------------------------------------------------------- documented API sequence of the make commands
     static void api_make(TasmanianSparseGrid &g, const GridSpec &sp, int depth, int outs, const std::string &customfile) {
         switch (sp.family) {
-        case F_GLOBAL: case F_SEQ:
-            if (sp.family == F_SEQ && !customfile.empty()) throw std::logic_error("harness: sequence with custom file");
-            if (sp.family == F_GLOBAL || customfile == "\1") g.makeGlobalGrid(sp.dims, outs, depth, sp.type, sp.rule, sp.aw, sp.alpha, sp.beta, customfile.empty() ? nullptr : customfile.c_str(), sp.limits);
-            else g.makeSequenceGrid(sp.dims, outs, depth, sp.type, sp.rule, sp.aw, sp.limits);
-            break;
+        case F_GLOBAL: g.makeGlobalGrid(sp.dims, outs, depth, sp.type, sp.rule, sp.aw, sp.alpha, sp.beta, customfile.empty() ? nullptr : customfile.c_str(), sp.limits); break;
+        case F_SEQ: g.makeSequenceGrid(sp.dims, outs, depth, sp.type, sp.rule, sp.aw, sp.limits); break;
         case F_LOCALP: g.makeLocalPolynomialGrid(sp.dims, outs, depth, sp.order, sp.rule, sp.limits); break;
         case F_WAVE: g.makeWaveletGrid(sp.dims, outs, depth, sp.order, sp.limits); break;
         case F_FOURIER: g.makeFourierGrid(sp.dims, outs, depth, sp.type, sp.aw, sp.limits); break;
@@ -116,7 +113,7 @@ struct Script {
     void fit_depth(GridSpec &sp, int capn, const std::string &customfile) {
         int good = -1;
         for (int d = 0; d <= sp.depth; d++) {
-            try { TasmanianSparseGrid t; GridSpec q = sp; if (sp.family == F_SEQ && false) q.family = F_SEQ; api_make(t, q, d, 0, customfile); if (t.getNumPoints() > capn) break; good = d; }
+            try { TasmanianSparseGrid t; api_make(t, sp, d, 0, customfile); if (t.getNumPoints() > capn) break; good = d; }
             catch (std::runtime_error &) { break; }
         }
         if (good < 0) throw Discard("depth 0 grid exceeds the cap or the table");
@@ -194,15 +191,15 @@ struct Script {
         n_exec++; ctx.count("invocations");
         std::string cmdline; for (size_t i = 1; i < argv.size(); i++) { cmdline += (i > 1 ? " " : ""); cmdline += short_path(argv[i]); }
         auto tail = [](const std::string &t) { return t.size() > 600 ? t.substr(t.size() - 600) : t; };
-        if (r.kind == R_CRASH) throw Violation("C16.tool-crash", "`tasgrid " + cmdline + "` " + r.status + "; stderr: " + tail(r.err));
-        if (r.kind == R_TIMEOUT) throw Violation("C16.tool-timeout", "`tasgrid " + cmdline + "` did not finish within 8 s (the mirror needs milliseconds)");
+        if (r.kind == RK_CRASH) throw Violation("C16.tool-crash", "`tasgrid " + cmdline + "` " + r.status + "; stderr: " + tail(r.err));
+        if (r.kind == RK_TIMEOUT) throw Violation("C16.tool-timeout", "`tasgrid " + cmdline + "` did not finish within 8 s (the mirror needs milliseconds)");
         if (api_threw) {
-            VF_REQUIRE("C16.accepts-what-api-rejects", r.kind != R_OK, "`tasgrid " << cmdline << "` reports success but the corresponding API sequence throws: " << api_msg);
+            VF_REQUIRE("C16.accepts-what-api-rejects", r.kind != RK_OK, "`tasgrid " << cmdline << "` reports success but the corresponding API sequence throws: " << api_msg);
             ctx.count("both-reject"); lab("both-reject"); ctx.log("  -> rejected by tool and API (" + api_msg + ")");
             return true;
         }
-        VF_REQUIRE("C16.rejects-documented-input", r.kind != R_REJECT, "`tasgrid " << cmdline << "` exits with status " << r.code << " although the options follow the help text and the API sequence succeeds; stderr: " << tail(r.err) << " stdout: " << tail(r.out.substr(0, 200)));
-        VF_REQUIRE("C16.tool-aborts", r.kind != R_ABORT, "`tasgrid " << cmdline << "` dies of an uncaught exception although the API sequence succeeds; stderr: " << tail(r.err));
+        VF_REQUIRE("C16.rejects-documented-input", r.kind != RK_REJECT, "`tasgrid " << cmdline << "` exits with status " << r.code << " although the options follow the help text and the API sequence succeeds; stderr: " << tail(r.err) << " stdout: " << tail(r.out.substr(0, 200)));
+        VF_REQUIRE("C16.tool-aborts", r.kind != RK_ABORT, "`tasgrid " << cmdline << "` dies of an uncaught exception although the API sequence succeeds; stderr: " << tail(r.err));
         n_accepted++; lab("cmd:" + v.lname); lab(v.ascii ? "fmt:ascii" : "fmt:binary"); ctx.count("accepted");
         for (auto &f : v.files) lab(f.binary ? "in:binary-matrix" : "in:ascii-matrix");
         if (use_short) lab("name:short");
